@@ -685,3 +685,165 @@ def fixed_tools():
     return loader.shadow("fontTools.misc.fixedTools",
                          std("int", "float", "len", otRound=rt.otRound,
                              nearestMultipleShortestRepr=rt.nearestMultipleShortestRepr), cache_key="std")
+
+
+# --------------------------------------------------------------------------
+# array.array model (typecodes b B h H i I l L on a little-endian x86-64 host)
+
+import array as _array
+import sys as _sys
+
+_ARR = {"b": (1, True), "B": (1, False), "h": (2, True), "H": (2, False), "i": (4, True), "I": (4, False),
+        "l": (8, True), "L": (8, False), "q": (8, True), "Q": (8, False)}
+
+
+class SymArray:
+    """array.array whose items may be symbolic.  `swapped` records byteswap() calls, so
+    tobytes()/frombytes() produce/consume the right byte order."""
+
+    def __init__(self, typecode, init=()):
+        assert _sys.byteorder == "little", "array model is for a little-endian host"
+        if typecode not in _ARR:
+            raise Unsupported("array typecode %r" % typecode)
+        self.typecode = typecode
+        self.itemsize, self.signed = _ARR[typecode]
+        self.items = []
+        self.swapped = False
+        if isinstance(init, (bytes, bytearray, SymBytes)):
+            self.frombytes(init)
+        else:
+            for v in init:
+                self.append(v)
+
+    def _check(self, v):
+        n = self.itemsize * 8
+        lo, hi = (-(1 << (n - 1)), (1 << (n - 1)) - 1) if self.signed else (0, (1 << n) - 1)
+        if isinstance(v, SymBool):
+            v = v._as_num()
+        if isinstance(v, SymNum):
+            if not v.is_int:
+                raise TypeError("integer argument expected, got float")
+            if not bool(SymBool(z3.And(v.t >= lo, v.t <= hi))):
+                raise OverflowError("array item out of range for typecode %r" % self.typecode)
+            return v
+        if isinstance(v, float):
+            raise TypeError("integer argument expected, got float")
+        if not lo <= v <= hi:
+            raise OverflowError("array item out of range for typecode %r" % self.typecode)
+        return v
+
+    def append(self, v):
+        self.items.append(self._check(v))
+
+    def extend(self, vs):
+        for v in vs:
+            self.append(v)
+
+    def byteswap(self):
+        self.swapped = not self.swapped
+
+    def _bytes_of(self, v, big):
+        size = self.itemsize
+        if isinstance(v, SymNum):
+            cx = ctx()
+            bs = [cx.fresh_int("ab") for _ in range(size)]
+            total = z3.IntVal(0)
+            for b in bs:
+                cx.assume_term(z3.And(b.t >= 0, b.t <= 255))
+                total = total * 256 + b.t
+            cx.assume_term(total == (z3.If(v.t < 0, v.t + z3.IntVal(1 << (8 * size)), v.t) if self.signed else v.t))
+        else:
+            bs = list(int(v).to_bytes(size, "big", signed=self.signed))
+        return bs if big else bs[::-1]
+
+    def tobytes(self):
+        out = []
+        for v in self.items:
+            out.extend(self._bytes_of(v, big=self.swapped))
+        r = SymBytes(out)
+        c = r.concrete()
+        return c if c is not None else r
+
+    def frombytes(self, data):
+        data = SymBytes.of(data)
+        if data.tail is not None:
+            raise Unsupported("array.frombytes of symbolic-length data")
+        n = len(data.items)
+        if n % self.itemsize:
+            raise ValueError("bytes length not a multiple of item size")
+        for k in range(0, n, self.itemsize):
+            bs = data.items[k:k + self.itemsize]
+            if not self.swapped:
+                bs = bs[::-1]       # native little-endian
+            t = z3.IntVal(0)
+            for b in bs:
+                t = t * 256 + _lift(b).t
+            if self.signed:
+                t = z3.If(t >= z3.IntVal(1 << (8 * self.itemsize - 1)), t - z3.IntVal(1 << (8 * self.itemsize)), t)
+            v = SymNum(z3.simplify(t))
+            c = v.concrete()
+            self.items.append(c if c is not None else v)
+
+    def __len__(self):
+        return len(self.items)
+
+    def __iter__(self):
+        if self.swapped:
+            raise Unsupported("reading items of a byte-swapped array")
+        return iter(self.items)
+
+    def __getitem__(self, i):
+        if self.swapped:
+            raise Unsupported("reading items of a byte-swapped array")
+        if isinstance(i, slice):
+            a = SymArray(self.typecode)
+            a.items = self.items[i]
+            return a
+        return self.items[i]
+
+    def __setitem__(self, i, v):
+        self.items[i] = self._check(v)
+
+    def __eq__(self, o):
+        if isinstance(o, SymArray):
+            if len(o.items) != len(self.items):
+                return False
+            return sym.And(*[_lift(a) == b for a, b in zip(self.items, o.items)])
+        return False
+
+    def __hash__(self):
+        return id(self)
+
+    def tolist(self):
+        return list(self.items)
+
+    def __deepcopy__(self, memo):
+        a = SymArray(self.typecode)
+        a.items = list(self.items)
+        a.swapped = self.swapped
+        return a
+
+
+class _ArrayModule:
+    ArrayType = SymArray
+
+    @staticmethod
+    def array(typecode, init=()):
+        if isinstance(init, SymArray):
+            if init.swapped:
+                raise Unsupported("array from a byte-swapped array")
+            init = init.items
+        if not isinstance(init, (bytes, bytearray, SymBytes)):
+            init = list(init)
+            if not _has_sym(init):
+                try:
+                    ra = _array.array(typecode, init)
+                except Exception:
+                    raise
+                a = SymArray(typecode)
+                a.items = list(ra)
+                return a
+        return SymArray(typecode, init)
+
+
+STD["array"] = _ArrayModule
